@@ -1,0 +1,8 @@
+//go:build verif
+// +build verif
+
+package sqlgen
+
+// VerifExtractRow exposes extractRow (the filter made of a row's own column values) to the
+// verification harness.  Compiled only with -tags verif.
+func (t *Table) VerifExtractRow(row interface{}) Filter { return t.extractRow(row) }
